@@ -225,8 +225,9 @@ PROPS["C20"] = c20
 def c04(tier):
     units = []
     for mut in (0, 1, 2):
-        units += shards("VerifC04Nested", 3, weight=8, n=2, mut=mut)
-    return {"units": units, "bounds": dict(MACH_BOUNDS, nesting="one mutation (Add/Remove/Set over any called set) issued from inside any one handler call"),
+        for nk in (0, 1, 2):
+            units.append(U(MACH, "VerifC04Nested", weight=8, n=2, schema=-1, maxedges=1, mut=mut, nk=nk))
+    return {"units": units, "bounds": dict(MACH_BOUNDS, states="2 user states, schemas with at most one relation / Multi bit", nesting="one mutation (Add/Remove/Set over any called set) issued from inside any one handler call"),
             "outside": MACH_OUT + ["N>=2 goroutines racing on the queue lock (CAS): not explored, see DESIGN.md (C04 race clause)", "Eval", "handler timeouts / dispose flushing"],
             "assumptions": MACH_ASSUME}
 
@@ -234,13 +235,23 @@ def c04(tier):
 def c06(tier):
     units = []
     extras = (1,) if tier == "quick" else (0, 1, 2)
-    for kind in range(8):
+    # WhenTicks (3) and WhenNextActive (4) are thin wrappers over WhenTime (2): thorough tier only
+    for kind in ((0, 1, 2, 5, 6, 7) if tier == "quick" else range(8)):
         for pos in (0, 1, 2):
             for m1 in (0, 1, 2):
-                units.append(U(MACH, "VerifC06Wait", weight=5, n=2, schema=0, kind=kind, pos=pos, mut1=m1, auto=0))
-    for kind in (0, 1, 6):
+                # quick: the cancelation context only for When / WhenNot
+                ctx = -1 if (tier == "thorough" or kind in (0, 1)) else 0
+                for ex in extras if kind in (2, 3, 5, 7) else (1,):
+                    units.append(U(MACH, "VerifC06Wait", weight=5, n=2, schema=0, kind=kind, pos=pos, mut1=m1, auto=0, ctx=ctx, extra=ex))
+    # schemas with an Auto / Multi state (5 bits per state: Require Add Remove Multi Auto): partially accepted
+    # auto mutations, Multi re-activation
+    codes = (16,) if tier == "quick" else (16, 20, 17, 8, 24)
+    kinds = (6,) if tier == "quick" else (0, 1, 2, 6)
+    for kind in kinds:
         for pos in (0, 2):
-            units += shards("VerifC06Wait", 2, weight=8, n=2, kind=kind, pos=pos, auto=1, maxedges=2, mut1=0)
+            for sc in codes:
+                for m1 in (0, 1, 2):
+                    units.append(U(MACH, "VerifC06Wait", weight=6, n=2, schema=sc, kind=kind, pos=pos, auto=1, mut1=m1))
     return {"units": units, "bounds": {"transitions": "2 mutations (plus their auto mutations)", "subscription": "before the first mutation, from a final handler of it "
                                        "(between setActiveStates and processSubscriptions), or after it", "states": "2 user states, Multi, schema without relations for every "
                                        "When* kind; schemas with <=2 relation/Auto bits for When/WhenNot/NewStateCtx", "ctx": "none, live, cancelled between the mutations"},
